@@ -369,6 +369,9 @@ def _mk():
                 seen += 1
         return False
 
+    def b_format(it, a, k, n):
+        return A.format_value(a[0])
+
     def b_divmod(it, a, k, n):
         x, y = a
         return (it.binop(_ast.FloorDiv(), x, y, n), it.binop(_ast.Mod(), x, y, n))
@@ -471,7 +474,10 @@ def _mk():
         return Unknown("round()")
 
     def b_id(it, a, k, n):
-        return T("id", (A._term(a[0]),))
+        v = a[0]
+        if isinstance(v, (TV, Obj, list, dict)):
+            return id(v)  # identity of the abstract object stands for the identity of the run-time object
+        return T("id", (A._term(v),))
 
     def b_map(it, a, k, n):
         from .values import OneShot
@@ -512,7 +518,7 @@ def _mk():
         "setattr": b_setattr, "reversed": b_reversed, "zip": b_zip, "enumerate": b_enumerate,
         "sorted": b_sorted, "str": b_str, "repr": b_str, "type": b_type, "callable": b_callable,
         "print": b_print, "any": b_any, "all": b_all, "round": b_round, "id": b_id, "map": b_map,
-        "iter": b_iter, "slice": b_slice, "filter": b_filter, "divmod": b_divmod, "next": b_next,
+        "iter": b_iter, "slice": b_slice, "filter": b_filter, "divmod": b_divmod, "next": b_next, "format": b_format,
         "staticmethod": b_staticmethod("staticmethod"), "classmethod": b_staticmethod("classmethod"),
         "property": b_staticmethod("property"), "issubclass": b_issubclass,
     }
